@@ -58,8 +58,22 @@ def gen_line(rng, maxlen=10):
     n = rng.below(maxlen + 1)
     return "".join(rng.choice(LINE_POOL) for _ in range(n)) + ("\n" if rng.below(10) else "")
 
-def random_cases(rng, count):
+# patterns whose first atom accepts the code points U+0080..U+00BF, against lines whose multi-byte characters have
+# exactly those values as continuation bytes (a match must not start inside a character); and multi-byte
+# characters that are not the first of their literal run, followed by a postfix operator
+CONT_PATS = ["[«»]", "[¡-¿]", "[^é]", "[^a]", "[^ë]", "«+", "©", "[©«]", "[\u0080-\u00bf]", "[^a-z]", "¬", "[¬­]", "»*b", "(«|»)", "[^ ]", "­?x",
+             "aé*", "café?", "ü€+", "xé{2}", "bß+", "aé*b", "éé*", "a€?", ".é*", "(aé)*", "xë|ë", "ab©*"]
+CONT_LINES = ["Noël", "naïve û", "«ok»", "ë", "aë", "é©", "€", "a€b", "û«", "ü€€€", "aééé b", "caf x", "café", "xéé", "bßß", "a", "©", "ë«", "日本", "ab©©"]
+def cont_byte_cases(rng, count):
     out = []
+    for _ in range(count):
+        p = rng.choice(CONT_PATS)
+        l = rng.choice(CONT_LINES) + rng.choice(["", " ", rng.choice(CONT_LINES)]) + "\n"
+        out.append(rx(p.encode(), l.encode(), rng.choice([0, 0, 1, 1, 2, 4]), rng.choice([1, 3, 4])))
+    return out
+
+def random_cases(rng, count):
+    out = cont_byte_cases(rng, max(60, count // 8))
     for _ in range(count):
         p = gen_re(rng)
         if rng.below(6) == 0:
